@@ -3,13 +3,13 @@ package main
 // C11 — DNS auto-negotiation only settles on parameters that work.
 
 import (
-	"strings"
 	"fmt"
-	"os"
 	"go/ast"
 	"go/token"
 	"go/types"
+	"os"
 	"sort"
+	"strings"
 
 	"golang.org/x/tools/go/ssa"
 )
@@ -185,7 +185,14 @@ func checkC11(w *World, r *Report) {
 				if !ok {
 					return true
 				}
-				if sl, ok := info.TypeOf(cl).(*types.Slice); !ok || sl.Elem().String() != modPath+"/internal/util/enc.Encoder" {
+				var elem types.Type
+				switch lt := info.TypeOf(cl).(type) {
+				case *types.Slice:
+					elem = lt.Elem()
+				case *types.Array:
+					elem = lt.Elem()
+				}
+				if elem == nil || elem.String() != modPath+"/internal/util/enc.Encoder" {
 					return true
 				}
 				for _, el := range cl.Elts {
@@ -237,8 +244,176 @@ func checkC11(w *World, r *Report) {
 	upCfg := w.Named("internal/streams/dns/util", "UpstreamConfig")
 	encF := fieldOf(upCfg, "Encoder")
 	nfb := 0
+	ords := map[*ssa.Function]*int{}
+	var handle func(fn *ssa.Function, in ssa.Instruction, val ssa.Value, pos token.Pos, depth int)
+	handle = func(fn *ssa.Function, in ssa.Instruction, val ssa.Value, pos token.Pos, depth int) {
+		if ords[fn] == nil {
+			ords[fn] = new(int)
+		}
+		ordp := ords[fn]
+		ord := *ordp
+		defer func() { *ordp = ord }()
+		// a setter (`func (dc *C) setUpstreamEncoder(e enc.Encoder) { dc.Serializer.Upstream.Encoder = e }`): the
+		// codec is whatever each caller passes — classify at the call sites
+		if p, isParam := val.(*ssa.Parameter); isParam && p.Parent() == fn && depth < 2 {
+			idx := paramIndex(fn, p)
+			ncalls := 0
+			for _, g := range dnsPkgFuncs(w) {
+				for _, c := range callsIn(g) {
+					if c.Common().StaticCallee() == fn && idx >= 0 && idx < len(c.Common().Args) {
+						ncalls++
+						handle(g, c.(ssa.Instruction), c.Common().Args[idx], c.Pos(), depth+1)
+					}
+				}
+			}
+			if ncalls > 0 {
+				return
+			}
+		}
+		// only the client's own serializer (fields of ClientDnsConnection); the server applies what the client asked for
+		var g *ssa.Global
+		for _, root := range provenance(val, provOpts{}) {
+			if u, ok := root.(*ssa.UnOp); ok {
+				if gg, ok := u.X.(*ssa.Global); ok {
+					g = gg
+				}
+			}
+		}
+		if recvNamed(fnObj(fn)) != cdc {
+			return
+		}
+		if g == nil {
+			// the probed candidate: it may be committed only where its probe did not report an error
+			probeM := methodOf(cdc, "EncodingTestUpstream")
+			key := fmt.Sprintf("candidate:%s#%d", ssaFuncKey(fn), ord)
+			ord++
+			bad := ""
+			npaths := 0
+			// the choice may be delegated: Encoder = chooser(); the chooser returns a fall-back codec or a
+			// candidate on a path where its own trial (all patterns probed clean) returned nil
+			if hc, isCall := val.(*ssa.Call); isCall {
+				if h := hc.Call.StaticCallee(); h != nil && inModule(h) && len(h.Blocks) > 0 {
+					why, nfall := c11ChooserOK(w, h, probeM, byGlobal)
+					nfb++
+					r.Check(why == "", "R11.5", key, w.Pos(pos), fmt.Sprintf("%s returns a probed candidate only where its trial returned nil (%d fall-back return(s) are case-fold safe)", ssaFuncKey(h), nfall), why)
+					return
+				}
+			}
+			enumPaths(fn, nil, nil, func(x ssa.Instruction) bool { return x == in }, func(e pathExit) {
+				if e.Stop == nil {
+					return
+				}
+				npaths++
+				// only facts established after the candidate was (last) picked count: earlier ones belong to a previous candidate
+				since := 0
+				for _, root := range provenance(val, provOpts{}) {
+					if ri, ok := root.(ssa.Instruction); ok {
+						for i, bb := range e.State.Blocks {
+							if bb == ri.Block() && i > since {
+								since = i
+							}
+						}
+					}
+				}
+				inCurrent := func(bb *ssa.BasicBlock) bool {
+					for i := since; i < len(e.State.Blocks); i++ {
+						if e.State.Blocks[i] == bb {
+							return true
+						}
+					}
+					return false
+				}
+				for v, t := range e.State.Facts {
+					b, ok := v.(*ssa.BinOp)
+					if !ok || (b.Op != token.EQL && b.Op != token.NEQ) {
+						continue
+					}
+					if !inCurrent(b.Block()) {
+						continue
+					}
+					for _, side := range []ssa.Value{b.X, b.Y} {
+						c, ok := side.(*ssa.Call)
+						if !ok || sCallee(c) != probeM {
+							continue
+						}
+						other := b.X
+						if other == side {
+							other = b.Y
+						}
+						// err == <sentinel> true, or err != nil true: the probe failed on this path
+						if (b.Op == token.EQL && t && !isConstNil(other)) || (b.Op == token.NEQ && t && isConstNil(other)) {
+							bad = "the codec under test is committed on a path where its own probe reported an error (e.g. the case-swap edge): the handshake then reports success with a codec that the path mangles"
+							if os.Getenv("SACHECK_DEBUG") != "" {
+								var bl []int
+								for _, bb := range e.State.Blocks {
+									bl = append(bl, bb.Index)
+								}
+								fmt.Fprintf(os.Stderr, "DEBUG R11.5 fact %s = %v (block %d) path %v\n", v.String(), t, v.(*ssa.BinOp).Block().Index, bl)
+							}
+						}
+					}
+				}
+			})
+			// positive form: from every execution of the probe, the candidate is kept (next pattern probed, or
+			// committed) only through the probe's err == nil edge; leaving through a re-pick of the
+			// candidate or a return is free
+			repick := map[ssa.Instruction]bool{}
+			for _, root := range provenance(val, provOpts{}) {
+				if ri, ok := root.(ssa.Instruction); ok && ri.Block() != nil && ri.Parent() == fn {
+					repick[ri] = true
+				}
+			}
+			nprobe := 0
+			for _, pc := range callsIn(fn) {
+				if sCallee(pc) != probeM {
+					continue
+				}
+				pcall, ok := pc.(*ssa.Call)
+				if !ok {
+					continue
+				}
+				nprobe++
+				okp := enumPaths(fn, pcall, nil, func(x ssa.Instruction) bool { return x == in || x == ssa.Instruction(pcall) || repick[x] }, func(e pathExit) {
+					if e.Stop == nil || repick[e.Stop] {
+						return
+					}
+					clean := false
+					for v, t := range e.State.Facts {
+						x, eqNil, ok := nilTest(v)
+						if ok && x == ssa.Value(pcall) && t == eqNil {
+							clean = true
+						}
+					}
+					if !clean && bad == "" {
+						what := "committed"
+						if e.Stop != in {
+							what = "probed with its next pattern"
+						}
+						bad = fmt.Sprintf("%s: after this probe the codec under test can be %s on a path that never established err == nil for it (an unanswered or otherwise failed pattern is skipped instead of disqualifying the codec): the handshake then reports success with a codec the path does not carry", w.Pos(pcall.Pos()), what)
+					}
+				})
+				if !okp {
+					bad = "path budget exceeded"
+				}
+			}
+			if npaths > 0 {
+				nfb++
+				r.Check(bad == "" && nprobe > 0, "R11.5", key, w.Pos(pos), "the probed candidate is committed only where every pattern's probe reported no error", bad+mapStr(nprobe == 0, "no probe call found beside the commit of a candidate"))
+			}
+			return
+		}
+		nfb++
+		key := fmt.Sprintf("fallback:%s#%d", ssaFuncKey(fn), ord)
+		ord++
+		ci, ok := byGlobal[g.Object()]
+		if !ok || ci.Alphabet == "" {
+			r.Violate("R11.5", key, w.Pos(pos), g.Name()+" is assigned to the upstream direction without a probe, and it is not a table-driven codec with a known alphabet: on a path that folds letter case it cannot be relied on")
+			return
+		}
+		r.Check(caseFoldInjective(ci.Alphabet), "R11.5", key, w.Pos(pos), g.Name()+" (assigned without a probe) keeps distinct symbols distinct under ASCII case folding",
+			g.Name()+" is assigned to the upstream direction without a probe (fall-back), but its alphabet contains letters that differ only in case: a DNS path that rewrites case corrupts every query")
+	}
 	for _, fn := range dnsPkgFuncs(w) {
-		ord := 0
 		allInstrs(fn, func(in ssa.Instruction) {
 			st, ok := in.(*ssa.Store)
 			if !ok {
@@ -248,148 +423,7 @@ func checkC11(w *World, r *Report) {
 			if !ok || fieldVarOf(fa) != encF || encF == nil {
 				return
 			}
-			// only the client's own serializer (fields of ClientDnsConnection); the server applies what the client asked for
-			var g *ssa.Global
-			for _, root := range provenance(st.Val, provOpts{}) {
-				if u, ok := root.(*ssa.UnOp); ok {
-					if gg, ok := u.X.(*ssa.Global); ok {
-						g = gg
-					}
-				}
-			}
-			if recvNamed(fnObj(fn)) != cdc {
-				return
-			}
-			if g == nil {
-				// the probed candidate: it may be committed only where its probe did not report an error
-				probeM := methodOf(cdc, "EncodingTestUpstream")
-				key := fmt.Sprintf("candidate:%s#%d", ssaFuncKey(fn), ord)
-				ord++
-				bad := ""
-				npaths := 0
-				// the choice may be delegated: Encoder = chooser(); the chooser returns a fall-back codec or a
-				// candidate on a path where its own trial (all patterns probed clean) returned nil
-				if hc, isCall := st.Val.(*ssa.Call); isCall {
-					if h := hc.Call.StaticCallee(); h != nil && inModule(h) && len(h.Blocks) > 0 {
-						why, nfall := c11ChooserOK(w, h, probeM, byGlobal)
-						nfb++
-						r.Check(why == "", "R11.5", key, w.Pos(st.Pos()), fmt.Sprintf("%s returns a probed candidate only where its trial returned nil (%d fall-back return(s) are case-fold safe)", ssaFuncKey(h), nfall), why)
-						return
-					}
-				}
-				enumPaths(fn, nil, nil, func(x ssa.Instruction) bool { return x == in }, func(e pathExit) {
-					if e.Stop == nil {
-						return
-					}
-					npaths++
-					// only facts established after the candidate was (last) picked count: earlier ones belong to a previous candidate
-					since := 0
-					for _, root := range provenance(st.Val, provOpts{}) {
-						if ri, ok := root.(ssa.Instruction); ok {
-							for i, bb := range e.State.Blocks {
-								if bb == ri.Block() && i > since {
-									since = i
-								}
-							}
-						}
-					}
-					inCurrent := func(bb *ssa.BasicBlock) bool {
-						for i := since; i < len(e.State.Blocks); i++ {
-							if e.State.Blocks[i] == bb {
-								return true
-							}
-						}
-						return false
-					}
-					for v, t := range e.State.Facts {
-						b, ok := v.(*ssa.BinOp)
-						if !ok || (b.Op != token.EQL && b.Op != token.NEQ) {
-							continue
-						}
-						if !inCurrent(b.Block()) {
-							continue
-						}
-						for _, side := range []ssa.Value{b.X, b.Y} {
-							c, ok := side.(*ssa.Call)
-							if !ok || sCallee(c) != probeM {
-								continue
-							}
-							other := b.X
-							if other == side {
-								other = b.Y
-							}
-							// err == <sentinel> true, or err != nil true: the probe failed on this path
-							if (b.Op == token.EQL && t && !isConstNil(other)) || (b.Op == token.NEQ && t && isConstNil(other)) {
-								bad = "the codec under test is committed on a path where its own probe reported an error (e.g. the case-swap edge): the handshake then reports success with a codec that the path mangles"
-								if os.Getenv("SACHECK_DEBUG") != "" {
-									var bl []int
-									for _, bb := range e.State.Blocks {
-										bl = append(bl, bb.Index)
-									}
-									fmt.Fprintf(os.Stderr, "DEBUG R11.5 fact %s = %v (block %d) path %v\n", v.String(), t, v.(*ssa.BinOp).Block().Index, bl)
-								}
-							}
-						}
-					}
-				})
-				// positive form: from every execution of the probe, the candidate is kept (next pattern probed, or
-				// committed) only through the probe's err == nil edge; leaving through a re-pick of the
-				// candidate or a return is free
-				repick := map[ssa.Instruction]bool{}
-				for _, root := range provenance(st.Val, provOpts{}) {
-					if ri, ok := root.(ssa.Instruction); ok && ri.Block() != nil && ri.Parent() == fn {
-						repick[ri] = true
-					}
-				}
-				nprobe := 0
-				for _, pc := range callsIn(fn) {
-					if sCallee(pc) != probeM {
-						continue
-					}
-					pcall, ok := pc.(*ssa.Call)
-					if !ok {
-						continue
-					}
-					nprobe++
-					okp := enumPaths(fn, pcall, nil, func(x ssa.Instruction) bool { return x == in || x == ssa.Instruction(pcall) || repick[x] }, func(e pathExit) {
-						if e.Stop == nil || repick[e.Stop] {
-							return
-						}
-						clean := false
-						for v, t := range e.State.Facts {
-							x, eqNil, ok := nilTest(v)
-							if ok && x == ssa.Value(pcall) && t == eqNil {
-								clean = true
-							}
-						}
-						if !clean && bad == "" {
-							what := "committed"
-							if e.Stop != in {
-								what = "probed with its next pattern"
-							}
-							bad = fmt.Sprintf("%s: after this probe the codec under test can be %s on a path that never established err == nil for it (an unanswered or otherwise failed pattern is skipped instead of disqualifying the codec): the handshake then reports success with a codec the path does not carry", w.Pos(pcall.Pos()), what)
-						}
-					})
-					if !okp {
-						bad = "path budget exceeded"
-					}
-				}
-				if npaths > 0 {
-					nfb++
-					r.Check(bad == "" && nprobe > 0, "R11.5", key, w.Pos(st.Pos()), "the probed candidate is committed only where every pattern's probe reported no error", bad+mapStr(nprobe == 0, "no probe call found beside the commit of a candidate"))
-				}
-				return
-			}
-			nfb++
-			key := fmt.Sprintf("fallback:%s#%d", ssaFuncKey(fn), ord)
-			ord++
-			ci, ok := byGlobal[g.Object()]
-			if !ok || ci.Alphabet == "" {
-				r.Violate("R11.5", key, w.Pos(st.Pos()), g.Name()+" is assigned to the upstream direction without a probe, and it is not a table-driven codec with a known alphabet: on a path that folds letter case it cannot be relied on")
-				return
-			}
-			r.Check(caseFoldInjective(ci.Alphabet), "R11.5", key, w.Pos(st.Pos()), g.Name()+" (assigned without a probe) keeps distinct symbols distinct under ASCII case folding",
-				g.Name()+" is assigned to the upstream direction without a probe (fall-back), but its alphabet contains letters that differ only in case: a DNS path that rewrites case corrupts every query")
+			handle(fn, in, st.Val, st.Pos(), 0)
 		})
 	}
 	if nfb == 0 {
